@@ -3,6 +3,7 @@
 from vsg import parser, token, violation
 from vsg.rule_group import alignment
 from vsg.rules import alignment_utils, utils as rules_utils
+from vsg.token import delimited_comment
 from vsg.vhdlFile import utils
 
 lTokens = []
@@ -113,7 +114,7 @@ class rule_008(alignment.Rule):
                             iToken = -1
                             continue
 
-                    elif isinstance(oToken, parser.comment):
+                    elif isinstance(oToken, parser.comment) and not isinstance(oToken, delimited_comment.ending):
                         dAnalysis[iLine] = {}
                         dAnalysis[iLine]["token_column"] = iColumn
                         dAnalysis[iLine]["token_index"] = iToken
